@@ -43,6 +43,15 @@ var c17Watchdog = func() time.Duration {
 	return 120 * time.Second
 }()
 
+var c17Stalls int32
+
+func c17WD() time.Duration {
+	if atomic.LoadInt32(&c17Stalls) > 0 {
+		return 10 * time.Second
+	}
+	return c17Watchdog
+}
+
 type c17Mapper struct{}
 type c17Handler struct{}
 
@@ -92,6 +101,7 @@ func c17Yaml(port, maxConn int) string {
 }
 
 func (m *c17HMon) inconclusive(why string) {
+	atomic.AddInt32(&c17Stalls, 1)
 	if atomic.CompareAndSwapInt32(&m.aborted, 0, 1) {
 		m.r.Inconclusive(why + fmt.Sprintf(" [kind=%s cap=%d new=%d]", m.cs.Kind, m.cs.Cap, m.cs.NewCap))
 	}
@@ -110,8 +120,9 @@ func (m *c17HMon) waitUntil(what string, cond func() bool) bool {
 		time.Sleep(500 * time.Microsecond)
 		if e := atomic.LoadInt64(&m.events); e != last {
 			last, lastT = e, time.Now()
-		} else if time.Since(lastT) > c17Watchdog {
-			m.inconclusive("watchdog: no progress for " + c17Watchdog.String() + " while waiting for " + what)
+		} else if wd := c17WD(); time.Since(lastT) > wd {
+			atomic.AddInt32(&c17Stalls, 1)
+			m.inconclusive("watchdog: no progress for " + wd.String() + " while waiting for " + what)
 			return false
 		}
 	}
@@ -208,6 +219,10 @@ func (m *c17HMon) spawn(addr string, n int, idBase int) []*c17HClient {
 			// still established?  a second request on the same connection must be answered
 			if atomic.LoadInt32(&m.teardown) == 0 && atomic.LoadInt32(&c.cancelled) == 0 {
 				if err := c17Request(c.conn, br); err != nil {
+					if atomic.LoadInt32(&m.teardown) != 0 || atomic.LoadInt32(&c.cancelled) != 0 {
+						m.closing(c)
+						return // the server was shut down (or the harness closed the socket) under the request: not a verdict
+					}
 					m.mu.Lock()
 					ctx := m.ctx
 					m.mu.Unlock()
@@ -286,7 +301,22 @@ func c17HRun(r *kit.Run, cs *c17HCase, rng *rand.Rand) {
 		}
 		x := newRuntime(ss, c17Mapper{})
 		x.eventChan <- &eventReload{nextSuperSpec: ss, muxMapper: c17Mapper{}}
-		ok := m.waitUntil("runtime to start", func() bool { st := x.getState(); return st == stateRunning || st == stateFailed })
+		// stateRunning is published before the listener exists: wait until a connection gets through
+		ok := m.waitUntil("runtime to listen", func() bool {
+			if x.getState() == stateFailed {
+				return true
+			}
+			if x.getState() != stateRunning {
+				return false
+			}
+			c, err := net.DialTimeout("tcp", fmt.Sprintf("127.0.0.1:%d", port), time.Second)
+			if err != nil {
+				time.Sleep(2 * time.Millisecond)
+				return false
+			}
+			c.Close()
+			return true
+		})
 		if ok && x.getState() == stateRunning {
 			rt = x
 		} else {
@@ -395,6 +425,9 @@ func c17HRun(r *kit.Run, cs *c17HCase, rng *rand.Rand) {
 		time.Sleep(100 * time.Millisecond)
 		for _, c := range wave[:len(wave)/2] {
 			c.free()
+		}
+		for _, c := range wave[:len(wave)/2] {
+			<-c.done
 		}
 		time.Sleep(50 * time.Millisecond)
 	case "shrink":
